@@ -196,11 +196,24 @@ def gen_class_q(ctx, rng, nd_max):
     if rng.random() < 0.3:
         pre.append("w:%d:%d" % (rng.randrange(nd), rng.randrange(1, 20)))
     ops.append("pre " + " ".join(pre))
+    pre_idx = len(ops) - 1
+    cross = False
     for c in range(nd):
         for _ in range(rng.choice([0, 0, 1, 2])):
             acts = []
             r = rng.random()
-            if r < 0.35 and kinds[c] != "pipe":
+            others = [d for d in range(nd) if d != c and d not in later and kinds[d] != "pipe"]
+            if r < 0.12 and others:
+                # flags ANOTHER registered context closed while both have input pending in the same
+                # round: whichever is dispatched first, the other's bytes are still offered to its read
+                # callback before it is closed (all three back-ends)
+                d = rng.choice(others)
+                acts.append("s:%d" % d)
+                both = "w:%d:%d w:%d:%d" % ((c, rng.randrange(1, 9), d, rng.randrange(1, 9)) if rng.random() < 0.5
+                                          else (d, rng.randrange(1, 9), c, rng.randrange(1, 9)))
+                ops[pre_idx] += " " + both
+                cross = True
+            elif r < 0.35 and kinds[c] != "pipe":
                 acts.append("s:%d" % c)
             elif r < 0.6 and later:
                 d = rng.choice(later)
@@ -231,6 +244,12 @@ def gen_class_q(ctx, rng, nd_max):
         if rng.random() < 0.1:
             acts.append("X")
         ops.append("on idle %d %s" % (k, " ".join(acts)))
+    if cross:
+        # an exit requested from a callback of the same round ends the run before the flagged context is
+        # processed: closed or cleared then legitimately depends on the scan order. Such scripts leave
+        # by the exit the harness requests while the loop sleeps.
+        ops = [" ".join("u" if (w in ("x", "X") and i > 2) else w for i, w in enumerate(o.split()))
+               if o.startswith("on ") else o for o in ops]
     return ops + tail(tag)
 
 
